@@ -79,6 +79,20 @@ def model_paths(a, n, d, fc, sc, ks):
     return common.run_model("metadata", [[1, a, n, d, fc, sc, k] for k in ks])
 
 
+def regenerate(res):
+    """T7: placement arithmetic of digital_metadata.py -> coq/Gen/MdPlaceGen.v"""
+    import sys
+    sys.path.insert(0, os.path.join(common.VERIF, "translate"))
+    import c2gallina
+    import mdplace2gallina
+    try:
+        text = mdplace2gallina.translate(common.REPO)
+    except c2gallina.Unsupported as e:
+        res.broken.append("translator T7 (mdplace2gallina) rejects the current placement code: %s" % e)
+        return
+    common.write_if_changed(os.path.join(common.COQ, "Gen", "MdPlaceGen.v"), text)
+
+
 def run_config(res, n, d, fc, sc, ks, queries, stats):
     """one channel: write ks (ascending; singles and batches), then observe"""
     import digital_rf
